@@ -1,4 +1,5 @@
 import Driver.C14
+import Driver.Conn
 /-! `vmodel`: the line-protocol driver over the executable Lean model.
     One case per input line (`<stream> <args…>`), one predicted observation per output line. -/
 namespace Driver
@@ -9,6 +10,7 @@ def dispatch (line : String) : String :=
   | tag :: args =>
     match tag with
     | "c14" => c14 args
+    | "conn" => connWith noWrap args
     | _ => "bad-op"
 
 partial def loop (h : IO.FS.Stream) (out : IO.FS.Stream) : IO Unit := do
